@@ -101,6 +101,30 @@ func (rr *RecordedRun) Batch(b BatchSpec) *Failure {
 	return f
 }
 
+// WaitCallbacks waits (bounded) until every unsafe batch issued so far was reported persisted.
+func (rr *RecordedRun) WaitCallbacks() *Failure {
+	if !rr.Conf.Unsafe {
+		return nil
+	}
+	done := make(chan struct{})
+	go func() { rr.pending.Wait(); close(done) }()
+	select {
+	case <-done:
+		return nil
+	case <-time.After(CallBound):
+		return Failf("hang@persisted-callback", "persisted callbacks still outstanding %v after the last batch", CallBound)
+	}
+}
+
+// Reopen waits for durability of everything issued, closes the writer and opens it again on
+// the same (recording) directory.
+func (rr *RecordedRun) Reopen() *Failure {
+	if f := rr.WaitCallbacks(); f != nil {
+		return f
+	}
+	return rr.X.Reopen()
+}
+
 // Finish waits (bounded) for outstanding persisted-callbacks, closes the writer and collects
 // the trace.
 func (rr *RecordedRun) Finish(waitCallbacks bool) *Failure {
